@@ -325,21 +325,21 @@ def runFresh (sem : Sem W L) (sub : SubCall W) (code : List Nat) (gas : Nat) (w 
     { code := code, pc := 0, gas := gas, l := sem.l0, w := w, static := static, glob := glob, work := 0, issued := false }
 
 /-- the body of `evm.Call / CallCode / DelegateCall / StaticCall / create` once the depth check has passed; `sub` is the
-    same family one level deeper -/
-def callBody (sem : Sem W L) (J : Journal W) (sub : SubCall W) (req : CallReq W) (ro : Bool) (glob : Glob) : CallRes W :=
+    same family one level deeper; `simGas` is the gas of the decimals() static call (`staticCallSimulateGas`) -/
+def callBody (sem : Sem W L) (J : Journal W) (simGas : Nat) (sub : SubCall W) (req : CallReq W) (ro : Bool) (glob : Glob) : CallRes W :=
   match req.refuse with
   | some keep => { status := .failed, gas := if keep then req.fwd else 0, world := req.world, glob := glob, work := 0, issued := false }
   | none =>
     -- snapshot, then CreateAccount / Transfer, then run; deposit; the select on `Issued`; revert / burn
     settle J (J.snap req.world)
-      (afterSelect sem J req.static (fun w g => runFresh sem sub (req.simCode w) simulateGas w true g)
+      (afterSelect sem J req.static (fun w g => runFresh sem sub (req.simCode w) simGas w true g)
         (afterDeposit req (runFresh sem sub req.code req.fwd (req.enter req.world) (ro || req.static) glob)))
 
 /-- `evm.Call / CallCode / DelegateCall / StaticCall / create` with a depth budget
     (`evm.depth > CallCreateDepth ⇒ ErrDepth`, the gas is handed back) -/
 def callAt (sem : Sem W L) (J : Journal W) : Nat → SubCall W
   | 0 => fun req _ glob => { status := .failed, gas := req.fwd, world := req.world, glob := glob, work := 0, issued := false }
-  | n + 1 => callBody sem J (callAt sem J n)
+  | n + 1 => callBody sem J simulateGas (callAt sem J n)
 
 /-! ### the fee ledger of `Interpreter.Run` (`evm.fees`, `feeSaved`) on a step that cannot pay -/
 
